@@ -138,6 +138,16 @@ def replay(req):
             sc._GLOBAL_ENTROPY_CALLS[0] += 1
         return real_urandom(n)
     _os.urandom = counted_urandom
+    # the preconditions speak about the arguments only: evaluate them BEFORE the call - outside its precondition the real function
+    # need not even terminate (unbiased_randrange with start >= stop loops forever)
+    try:
+        env0 = dict(args)
+        env0.update(spec=NS.get("spec"), implies=lambda a, b: (not a) or b, old=lambda x: x)
+        if not all(bool(eval(p, dict(NS), env0)) for p in req.get("requires", [])):
+            _os.urandom = real_urandom
+            return {"ok": True, "precondition_holds": False, "outcome": "not-called"}
+    except BaseException:
+        pass          # not evaluable without the result: fall through to the old order
     try:
         r = f(**args)
         out.update(outcome="return", value=enc(r))
